@@ -310,6 +310,29 @@ def make_array(values, fmt, dtype_default='float64'):
     raise ValueError(lay)
 
 
+_make_array, _make_walls = make_array, None      # (run_impl shadows the two names with buffer-aware versions)
+
+
+def refill_buffer(bufs, values, fmt):
+    """R16: the caller's preallocated array (or list) `fmt['buf']`, refilled in place with `values`"""
+    dt = fmt.get('dtype', 'float64')
+    lay = fmt.get('layout', 'C')
+    shape = tuple(fmt.get('shape', [len(values)]))
+    key = (fmt['buf'], lay, dt, shape)
+    if lay == 'list':
+        if key not in bufs:
+            bufs[key] = []
+        bufs[key][:] = [int(v) if dt.startswith(('int', 'uint')) else float(v) for v in values]
+        return bufs[key]
+    if key not in bufs:
+        if lay == 'stride2':
+            bufs[key] = np.zeros(shape[:-1] + (2 * shape[-1],), dtype=dt)[..., ::2]
+        else:
+            bufs[key] = np.zeros(shape, dtype=dt, order='F' if lay == 'F' else 'C')
+    bufs[key][...] = np.array(values, dtype=float).astype(dt).reshape(shape)
+    return bufs[key]
+
+
 def fmt_tolerance(fmt):
     """(relative tolerance factor for dB values, for positive linear values)"""
     dt = (fmt or {}).get('dtype', (fmt or {}).get('stype', 'float64'))
@@ -407,6 +430,9 @@ def make_walls(nws, fmt):
         return np.broadcast_to(np.array(nws, dtype=wdt), tuple(fmt['shape']))
     a = make_array(nws, {k: v for k, v in fmt.items() if k in ('shape', 'layout')}, 'int64')
     return a.astype(wdt) if fmt.get('layout', 'C') == 'C' else a
+
+
+_make_walls = make_walls
 
 
 # ---- public calls that are NOT setters (R7): plot helpers, representations, copies, getters, helper methods
@@ -544,6 +570,20 @@ def run_impl(case):
     kind = case['kind']
     res = []
     warnings.simplefilter('ignore')
+    bufs = {}
+
+    def make_array(values, fmt, dtype_default='float64'):
+        # R16: ops marked {'buf': name} hand the code ONE array / list object per name, refilled in place
+        if fmt and fmt.get('buf'):
+            return refill_buffer(bufs, values, fmt)
+        return _make_array(values, fmt, dtype_default)
+
+    def make_walls(nws, fmt):
+        if fmt and fmt.get('same'):
+            return refill_buffer(bufs, nws, fmt)            # the SAME object as the distances
+        if fmt and fmt.get('buf'):
+            return refill_buffer(bufs, nws, dict(fmt, buf=fmt['buf'] + ':walls', dtype='int64'))
+        return _make_walls(nws, fmt)
     for op in case['ops']:
         op, fmt = split_fmt(op)
         name = op[0]
@@ -681,6 +721,10 @@ def compare(case, impl, model_line):
         op, fmt = split_fmt(op)
         rel = op[0] in LINEAR_OPS
         tol = fmt_tolerance(fmt)[1 if rel else 0]
+        if fmt and fmt.get('exact'):
+            rel, tol = True, 0.0          # R15: exactly representable tiny losses: bit for bit
+        elif fmt and fmt.get('reltol'):
+            rel, tol = True, fmt['reltol']    # R15: a tiny loss next to the threshold: relative to ITS size
         if isinstance(a, str):
             ok = (a == t)
         elif isinstance(a, float):
@@ -1093,6 +1137,11 @@ def correspondence(ctx, n_cases, hist_len, depth):
         q = ['dba', 2, vals] if kind == 'ps7' else ['dba', vals]
         big.append({'kind': kind, 'ctor': None, 'ops': hist + [['small', 1], ['shadow', 0], q, ['flags']]})
         ctx.branch('corr:R14:N>=257')
+    x = _r15r16()
+    n_x = 120 if n_cases < 10000 else 4000
+    close = x.corr_close_cases(ctx, rng.fork('R15'), n_x)
+    reuse = x.corr_buffer_cases(ctx, rng.fork('R16'), n_x)
+    big = big + close + reuse
     enum = enumerated_cases(depth)
     ctx.branch('enumerated-histories', len(enum))
     ctx.extra['enumerated_setter_histories'] = {'depth': depth, 'count': len(enum)}
@@ -2722,8 +2771,10 @@ def check(ctx):
     corpus_oracles(ctx)
     oracles(ctx, n_or, hist)
     robust_oracles(ctx, n_rob, hist)
+    x = _r15r16()
+    x.run(ctx, 250 if quick else 8000, 250 if quick else 8000, hist)
     if ctx.required_branches:
-        ctx.required_branches = ctx.required_branches + ROBUST_REQUIRED
+        ctx.required_branches = ctx.required_branches + ROBUST_REQUIRED + x.REQUIRED + x.CORR_REQUIRED
 
 
 def search(ctx):
